@@ -177,14 +177,28 @@ def execute_flow(cfg, schedule=None, rng=None, max_yields=None, keep_dir=False, 
     try:
         with _Patches(sim, clock, disk), EntryPollution(tf, tf_targets, stats_f):
             pm = None if is_ref else (dict(cfg["parallel_mode"]) or None)
+            settings_list, main_idx = [test_setting], 0
+            if cfg.get("companion"):
+                # another test setting handled by the same call, before or after the one under study
+                comp = workload.build_test_setting(workload.companion_config(cfg))
+                settings_list, main_idx = ([comp, test_setting], 1) if cfg["companion"]["position"] == "before" else ([test_setting, comp], 0)
             results = qflow.execute_simulation_test_settings(
-                [test_setting], out_dir, pdf_mode="none", exec_sim_check=copy.deepcopy(cfg.get("exec_sim_check")), parallel_mode=pm,
+                settings_list, out_dir, pdf_mode="none", exec_sim_check=copy.deepcopy(cfg.get("exec_sim_check")), parallel_mode=pm,
                 is_computation_time_required=cfg.get("is_computation_time_required", True),
             )
+        if cfg.get("companion"):
+            stats_p["two_test_settings_in_one_call"] = 1
+            results = [r for r in results if r.result_index["test_setting_index"] == main_idx]
+            for r in results:
+                r.result_index = dict(r.result_index, test_setting_index=0)
         res["results"] = [workload.extract_result(r) for r in results]
         res["raw_results"] = results
         res["test_setting"] = test_setting
         res["files"] = oracles.read_output_dir(out_dir)
+        if cfg.get("companion"):
+            # only the files of the setting under study, under the name they have when it is run alone
+            pre = str(main_idx) + os.sep
+            res["files"] = {key: {"0" + os.sep + k[len(pre):]: v for k, v in val.items() if k.startswith(pre)} for key, val in res["files"].items()}
         res["globals_after"] = {"atol": Settings.get_atol() if not cfg.get("parent_atol") else 1e-13, "ineq_eps": pvc.get_ineq_const_eps()}
     except SimAbort as e:
         res = {"ok": False, "abort": str(e)}
@@ -308,10 +322,24 @@ def run_record(record, want_record=True, gen=None):
             if cfg.get("parent_atol"):
                 Settings.set_atol(cfg["parent_atol"])  # re-estimation happens in the same session as the run
             oracles.check_run_internal(cfg, ref, viol, stats, sig_base, which="reference")
-            if not viol:
+            if not viol and not cfg.get("companion"):
                 oracles.reestimate_from_dir(cfg, ref, viol, stats, sig_base)
-            if not viol:
+            if not viol and not cfg.get("companion"):
                 oracles.check_stored_equals_returned(cfg, ref, viol, stats, sig_base)
+            if not viol and cfg.get("companion"):
+                # H9: what a test setting yields is a function of that setting and its seeds - not of the other settings
+                # the same call handles
+                alone = execute_flow({k: v for k, v in cfg.items() if k != "companion"}, parent_seed=1)
+                stats["steps"] += 1
+                stats["oracle_checks"]["H9"] = stats["oracle_checks"].get("H9", 0) + 1
+                if not alone["ok"]:
+                    viol.append({"oracle": "H0_serial_run_fails", "what": f"serial run of the setting alone failed: {alone.get('exception') or alone.get('abort')}", "detail": {"trace": alone.get("trace")},
+                                 "signature": dict(sig_base, oracle="H0_serial_run_fails", exc=(alone.get("exception") or "abort").split(":")[0])})
+                else:
+                    d = oracles.first_diff(alone["results"], ref["results"], "results")
+                    if d:
+                        viol.append({"oracle": "H9_setting_isolation", "what": f"a test setting handled {cfg['companion']['position']} another one in the same call gives other results than alone: {d[0]} ({d[1]}, max abs diff {d[2]})",
+                                     "detail": {"field": d[0], "companion": cfg["companion"]}, "signature": dict(sig_base, oracle="H9_setting_isolation", position=cfg["companion"]["position"])})
         finally:
             Settings.set_atol(atol_saved)
         if not viol:
@@ -430,6 +458,11 @@ def gen_schedule_header(rng, cfg, fault_free, est, si):
 
 
 def _with_disk_faults(rng, cfg, hdr):
+    if cfg.get("companion"):
+        # two settings in one call: the directory-level fault oracles are written for one setting
+        if rng.random() < 0.2:
+            hdr["worker_cwd"] = True
+        return hdr
     if rng.random() < 0.08:
         # fault kind task_exception: one task fails; the run must fail with it, never return a silently incomplete result
         hdr["task_fault"] = [[rng.choice(["_execute_estimation", "_execute_estimation", "execute_simulation_case_unit"]), rng.randint(1, 4), "raise", 0]]
